@@ -74,6 +74,14 @@ def diagnose(d):
                 r = None
             if r is None or r.uri != q.uri:
                 feats.add("ambiguous-name")
+    # two bundles of one document whose identifiers print alike (one homed in the document's scope by bundle(), one
+    # in its own scope by add_bundle() or the JSON reader) share one key of the PROV-JSON bundle map
+    keys = {}
+    for b in d.bundles:
+        if b.identifier is not None:
+            keys.setdefault(str(b.identifier), set()).add(b.identifier.uri)
+    if any(len(u) > 1 for u in keys.values()):
+        feats.add("bundle-key-collision")
     return feats
 
 
@@ -122,6 +130,8 @@ class C01Oracle(worldprop.Oracle):
 
 def classify(f, ops):
     feats = set(f.get("feats", []))
+    if "bundle-key-collision" in feats:
+        return "C01-F4"
     if "prefix-named-default" in feats:
         return "C01-F3"
     if "unprintable-name" in feats:
